@@ -432,7 +432,7 @@ class C15Property:
             lines = case["doc"].split("\n")
             for i in range(len(lines)):
                 doc = "\n".join(lines[:i] + lines[i + 1:])
-                if doc.strip() and not reader.Doc(doc).has_error():
+                if doc.strip() and not reader.Doc(doc).has_error() and not reader.EMPTY_LET.search(doc):
                     c = dict(case)
                     c["doc"] = doc
                     yield c
